@@ -884,7 +884,8 @@ def precheck_coverage(prog):
     f = prog.func(q)
     S = Sym(prog, inline=lambda g: g.module.name == "sempler.utils" and g.qname != q)
     run_function(S, f)
-    raises = [r for r in S.select("raise", qname=q) if r.exctype == "ValueError" and len(r.path) == 1 and r.path[0][1] is True and not r.loops]
+    raises = [r for r in S.select("raise", root=q) if r.exctype == "ValueError" and len(r.path) == 1 and r.path[0][1] is True and not r.loops
+              and r.qname in (q,) + tuple(x.qname for x in S.facts if x.root == q and x.qname.rsplit(".", 1)[-1].startswith("_"))]
     best = {"node": None, "pairs": False, "diag": False, "false_rejections": [], "why": "no pre-check found"}
     for r in raises:
         pn = npred(r.path[0][0], True)
